@@ -14,27 +14,27 @@ Import ListNotations.
 
 Definition ui_key (cols : list nat) (r : row) : key := proj cols r.
 
-(** [data.entry(key).or_insert_with(Vec::new).push(row_index)] *)
-Fixpoint ui_add (k : key) (n : nat) (m : amap (list nat)) : amap (list nat) :=
-  match m with
-  | [] => [(k, [n])]
-  | (k', l) :: r => if key_eqb k k' then (k', l ++ [n]) :: r else (k', l) :: ui_add k n r
-  end.
+Definition ui_get (k : key) (m : amap (list nat)) : list nat :=
+  match am_find k m with Some l => l | None => [] end.
+
+(** [data.entry(key).or_insert_with(Vec::new).push(row_index)]
+    (a BTreeMap has one entry per key; the entry's position in the association list is not
+    observable, so it is re-inserted at the front) *)
+Definition ui_add (k : key) (n : nat) (m : amap (list nat)) : amap (list nat) :=
+  am_insert k (ui_get k m ++ [n]) m.
 
 Definition ids_retain_ne (n : nat) (l : list nat) : list nat := filter (fun i => negb (Nat.eqb i n)) l.
 
 (** [if let Some(ids) = data.get_mut(key) { ids.retain(|&i| i != row_index);
       if ids.is_empty() { data.remove(key); } }] *)
-Fixpoint ui_remove_id (k : key) (n : nat) (m : amap (list nat)) : amap (list nat) :=
-  match m with
-  | [] => []
-  | (k', l) :: r =>
-      if key_eqb k k' then
-        match ids_retain_ne n l with
-        | [] => r
-        | l' => (k', l') :: r
-        end
-      else (k', l) :: ui_remove_id k n r
+Definition ui_remove_id (k : key) (n : nat) (m : amap (list nat)) : amap (list nat) :=
+  match am_find k m with
+  | None => m
+  | Some l =>
+      match ids_retain_ne n l with
+      | [] => am_remove k m
+      | l' => am_insert k l' m
+      end
   end.
 
 (** building an index from the rows of a table (create_index and rebuild_indexes, InMemory arm) *)
